@@ -399,6 +399,8 @@ impl Scenario for ProgressSnapshots {
             let mut snaps: Vec<Vec<ChainStats>> = vec![vec![]; nc];
             let mut open = vec![true; nc];
             let mut mixtures = 0u64;
+            let mut unequal = 0u64;
+            let mut order_dep: Option<String> = None;
             while open.iter().any(|x| *x) {
                 for c in 0..nc {
                     if !open[c] {
@@ -417,14 +419,27 @@ impl Scenario for ProgressSnapshots {
                 }
                 let recent: Vec<&ChainStats> = snaps.iter().filter_map(|s| s.last()).collect();
                 if recent.len() >= 2 {
+                    // what the reporter computes from whatever reports exist at this moment (the chains are at
+                    // different draw counts): a function of the SET of trackers, not of their listing order
                     let r = collect_rhat(&recent);
                     mixtures += 1;
-                    let _ = r;
+                    let mut rev = recent.clone();
+                    rev.reverse();
+                    let r2 = collect_rhat(&rev);
+                    if recent.iter().all(|s| s.n >= 2) && recent.iter().any(|s| s.n != recent[0].n) {
+                        unequal += 1;
+                        for j in 0..r.len() {
+                            let (a, b) = (r[j] as f64, r2[j] as f64);
+                            if a.is_finite() && b.is_finite() && (a - b).abs() > 1e-4 * a.abs().max(b.abs()) + 1e-6 && order_dep.is_none() {
+                                order_dep = Some(format!("snapshots with n = {:?}: collect_rhat[{j}] = {a} but {b} with the trackers listed in reverse order", recent.iter().map(|s| s.n).collect::<Vec<_>>()));
+                            }
+                        }
+                    }
                 }
                 mcmc_sim::thread::sleep(std::time::Duration::from_millis(250));
             }
             let res: Vec<Result<(), String>> = hs.into_iter().map(|h| h.join().unwrap_or_else(|_| Err("worker panicked".into()))).collect();
-            (snaps, res, mixtures)
+            (snaps, res, mixtures, unequal, order_dep)
         });
         o.sim_time_ns = rep.sim_time_ns;
         o.hash = mix(mix(rep.sched_hash, rep.event_hash), str_hash(&params.to_string()));
@@ -437,11 +452,16 @@ impl Scenario for ProgressSnapshots {
         if sim_failure_violation(&mut o, &rep, "progress-snapshots") {
             return o;
         }
-        let Some((snaps, res, mixtures)) = out else {
+        let Some((snaps, res, mixtures, unequal, order_dep)) = out else {
             o.harness_error = Some("no value".into());
             return o;
         };
         o.count("probe_snapshot_mixtures_combined", mixtures);
+        o.count("probe_snapshot_mixtures_with_unequal_counts", unequal);
+        if let Some(d) = order_dep {
+            o.violate("rhat_order_dependent", "collect_rhat:depends-on-tracker-order", d);
+            return o;
+        }
         for r in res {
             if let Err(e) = r {
                 o.violate("worker_err", "run_chain_progress:Err", e);
